@@ -323,7 +323,7 @@ Example C04_text_attr_nonvacuous :
   let x := mkX (mkMConfig (S "html") [] [] WNone None None false None [] false false)
                (mkOconfig (mkOfmt [] [] []) [] [] (S "double") true false [] [] 0 false [] (S "html") [] false [] [] []
                           false None None) in
-  let e := mkSElem (S "p") [PClass (S "c"); PSet [mkSAttr false (S "t") false (SUnq (S "1"))]]
+  let e := mkSElem (S "p") [PClass 0 (S "c"); PSet [mkSAttr false (S "t") false (SUnq (S "1"))]]
                    (Some (S "a>b*3 \{x\} (y)")) true in
   selem_ok e /\ value_inline (xc_o x) (elem_text_value e) /\
   elem_text e = S "p.c[t=1]{a>b*3 \{x\} (y)}/" /\
